@@ -113,6 +113,15 @@ def _drain_stdout(stdout):
     return _read_all(stdout).splitlines(keepends=True)
 
 
+def _split_keep_nl(s):
+    """Split *s* after every ``\\n``, keeping the newlines (only ``\\n`` counts)."""
+    parts = s.split("\n")
+    out = [p + "\n" for p in parts[:-1]]
+    if parts[-1]:
+        out.append(parts[-1])
+    return out
+
+
 class blocking_property(property):
     """Property that may block waiting for process completion."""
 
@@ -501,6 +510,11 @@ class CommandPipeline:
         nl = b"\n"
         cr = b"\r"
         crnl = b"\r\n"
+        # Readers hand over whatever a read returned, which may end in the
+        # middle of a line, of a CRLF pair, of a multi-byte character or of an
+        # escape sequence.  Hold such a tail back until its line is complete,
+        # so the text does not depend on how the output was chunked.
+        pending = b""
         for line in self.iterraw():
             # write to stdout line ASAP, if needed
             if stream:
@@ -521,16 +535,26 @@ class CommandPipeline:
                         raise
             # save the raw bytes
             raw_out_lines.append(line)
+            line = pending + line
+            if not line.endswith(nl):
+                pending = line
+                continue
+            pending = b""
             # do some munging of the line before we return it
-            if line.endswith(crnl):
-                line = line[:-2] + nl
-            elif line.endswith(cr):
-                line = line[:-1] + nl
+            line = line.replace(crnl, nl).replace(cr, nl)
             line = line.decode(encoding=enc, errors=err)
             line = RE_HIDE_ESCAPE.sub("", line)
             # tee it up!
-            lines.append(line)
-            yield line
+            for line in _split_keep_nl(line):
+                lines.append(line)
+                yield line
+        if pending:
+            line = pending.replace(crnl, nl).replace(cr, nl)
+            line = line.decode(encoding=enc, errors=err)
+            line = RE_HIDE_ESCAPE.sub("", line)
+            for line in _split_keep_nl(line):
+                lines.append(line)
+                yield line
 
         # using join is more efficient than concatenating in a loop
         self._raw_output = b"".join(raw_out_lines)
